@@ -23,7 +23,7 @@ class PData:
         self.shape, self.arr = tuple(shape), arr
 
     def el(self, idx):
-        return self.arr[idx[0]] if len(self.shape) == 1 else self.arr[idx[0]][idx[1]]
+        return self.arr if len(self.shape) == 0 else (self.arr[idx[0]] if len(self.shape) == 1 else self.arr[idx[0]][idx[1]])
 
     def getattr(self, ex, st, name):
         if name == "size":
@@ -85,12 +85,15 @@ class Param:
 
 
 class Net:
-    def __init__(self, params):
+    def __init__(self, params, buffers=()):
         self.params = params      # list of (name, Param)
+        self.buffers = list(buffers)   # list of (name, Param-like tensor): BatchNorm running statistics
 
     def getattr(self, ex, st, name):
         if name == "named_parameters":
             return Fn(model=lambda ex, st, a, k: list(self.params), name=name)
+        if name == "named_buffers":
+            return Fn(model=lambda ex, st, a, k: list(self.buffers), name=name)
         raise Undecided(f"module attribute {name}")
 
 
@@ -100,16 +103,17 @@ def build(tier):
     P.trusted += ["tensor slicing with a tuple of slices denotes the index box (clamped to the shape); slice assignment copies element-wise; "
                   "`param.data = t` makes the parameter hold t; named_parameters() lists (name, parameter) pairs"]
     names = [("fc.weight", 2), ("fc.bias", 1), ("layer_norm.weight", 1)]
+    bufs = [("batch_norm.running_mean", 1), ("batch_norm.num_batches_tracked", 0)]
     dims = {}
 
     def mk(label, only_new=False):
-        ps = []
-        for nm, rank in names + ([("new_only.weight", 2)] if only_new else []):
+        ps, bs = [], []
+        for nm, rank in names + ([("new_only.weight", 2)] if only_new else []) + bufs:
             shape = tuple(z3.Int(f"{label}.{nm}.d{d}") for d in range(rank))
-            arr = z3.Const(f"{label}.{nm}", TT.A1 if rank == 1 else TT.A2)
+            arr = z3.Const(f"{label}.{nm}", Re if rank == 0 else (TT.A1 if rank == 1 else TT.A2))
             dims[(label, nm)] = (shape, arr)
-            ps.append((nm, Param(PData(shape, arr))))
-        return Net(ps)
+            (bs if (nm, rank) in bufs else ps).append((nm, Param(PData(shape, arr))))
+        return Net(ps, bs)
 
     def setup(ex, st, fr):
         st.locals["old_net"] = mk("old")
@@ -124,10 +128,13 @@ def build(tier):
         out = []
         i, j = z3.Int("i!p"), z3.Int("j!p")
         cur = dict(result.params)
-        for nm, rank in names:
+        cur.update(dict(result.buffers))
+        for nm, rank in names + bufs:            # buffers too: an unchanged architecture has to compute the same function in eval mode
             (oshape, oarr), (nshape, narr) = dims[("old", nm)], dims[("new", nm)]
             d = cur[nm].data
-            if rank == 1:
+            if rank == 0:
+                out.append(d.arr == oarr)
+            elif rank == 1:
                 common = z3.And(0 <= i, i < oshape[0], i < nshape[0])
                 out.append(z3.ForAll([i], z3.Implies(common, d.arr[i] == oarr[i])))                        # common index range keeps its value
                 out.append(z3.Implies(oshape[0] == nshape[0], z3.And(z3ify(d.shape[0]) == oshape[0])))     # equal shapes: whole tensor
@@ -145,12 +152,15 @@ def build(tier):
     P.specns["pp_post"] = post
     P.contract("agilerl.modules.base.EvolvableModule.preserve_parameters", setup=setup, params={}, requires=[], frame_fields=False,
                ensures=["pp_post(result)"], replay="c04:preserve")
+    # the CNN's own copy of the slice logic (used by EvolvableCNN / EvolvableResNet / MakeEvolvable when shrinking): same postcondition
+    P.contract("agilerl.modules.cnn.EvolvableCNN.shrink_preserve_parameters", setup=setup, params={}, requires=[], frame_fields=False,
+               ensures=["pp_post(result)"], replay={"adapter": "demos:run", "payload": {"name": "C04_demo_1"}})
     P.native.append(dict(name="walk", adapter="c03:walk", thorough_only=True, payload={"mode": "search"},
                          bound="same clone-and-mutate walks as C03: clone() reproduces outputs; strict reload"))
     P.native.append(dict(name="preserve", adapter="c04:preserve", payload={"mode": "search"},
                          bound="MLP / QNetwork with randomised weights: every mutation method; common-range preservation of every same-named parameter; "
                                "a mutation that leaves the architecture unchanged leaves the function unchanged"))
     P.assumptions += ["ranks 1 and 2 (dimension values symbolic); conv kernels (rank 4/5) only through the native adapter"]
-    P.uncovered += ["EvolvableCNN.shrink_preserve_parameters", "end-to-end output equality after no-op mutations and clone() (bounded native)",
+    P.uncovered += ["conv kernels of rank 4/5 in shrink_preserve_parameters (the first two dimensions are sliced, spatial dimensions kept whole)", "end-to-end output equality after no-op mutations and clone() (bounded native)",
                     "Mutations.reinit_from_mutated / load_state_dicts wiring"]
     return P
